@@ -1148,3 +1148,38 @@ package vm
 //@   ensures [gas]     leftOverGas <= gas
 //@   ensures [failgas] err != nil && err != ErrExecutionReverted && err != ErrDepth ==> leftOverGas == 0
 //@   ensures [revert]  err != nil ==> ghost(stver) == old(ghost(stver))
+
+// ---------------------------------------------------------------------------------------------
+// Rangers opcodes AUTH / AUTHCALL helpers (C11: no opcode may crash the host). AUTH's jump-table entry has
+// minStack 3 and a dynamic gas function but NO memorySize function, so the interpreter guarantees
+// nothing about the memory size when opAuth runs: the contract's precondition is only what the
+// interpreter establishes for every opcode (stack depth, memory invariant).
+
+//@ func popAddress
+//@   property C11
+//@   requires callContext != nil && callContext.stack != nil && len(callContext.stack.data) >= 1
+//@   loop 0: invariant i >= 0 && fresh(data) && len(data) == length + i && length <= 32
+//@   ensures [len]  len(callContext.stack.data) == old(len(callContext.stack.data)) - 1
+//@   ensures [rest] forall k int :: 0 <= k && k < len(callContext.stack.data) ==> callContext.stack.data[k] == old(callContext.stack.data[k])
+//@   modifies callContext.stack.data
+
+// secp256k1 recovery (cgo) and address comparison: outside the subset; Ecrecover returns 65 bytes or an error.
+//@ func originValidateAuthAddr
+//@   property C11
+//@   option trusted
+//@   modifies nothing
+
+//@ func calAuthHash
+//@   property C11
+//@   requires chainId != nil
+//@   modifies nothing
+
+// evm.chainID is set by NewEVM from the chain configuration whenever the context carries a block number
+// (core.vmexecutor always supplies one).
+//@ func opAuth
+//@   property C11
+//@   requires callContext != nil && callContext.stack != nil && callContext.memory != nil && callContext.contract != nil && interpreter != nil && interpreter.evm != nil && interpreter.evm.chainID != nil
+//@   requires len(callContext.stack.data) >= 3 && len(callContext.stack.data) <= 1024 && cap(callContext.stack.data) >= 1024
+//@   requires memInv(uint64(len(callContext.memory.store)), callContext.memory.lastGasCost)
+//@   ensures [len]  len(callContext.stack.data) == old(len(callContext.stack.data)) - 2
+//@   ensures [ret]  result1 == nil && len(result0) == 0
